@@ -17,6 +17,7 @@ import (
 	"os"
 	"os/exec"
 	"runtime/debug"
+	"strconv"
 	"strings"
 	"syscall"
 	"time"
@@ -45,8 +46,7 @@ type wReply struct {
 const workerAddressSpace = 3 << 30
 
 func workerMain() {
-	lim := syscall.Rlimit{Cur: workerAddressSpace, Max: workerAddressSpace}
-	_ = syscall.Setrlimit(syscall.RLIMIT_AS, &lim)
+	limitOwnMemory(workerAddressSpace)
 	debug.SetMemoryLimit(1 << 30)
 	in := bufio.NewReaderSize(os.Stdin, 1<<16)
 	out := bufio.NewWriter(os.Stdout)
@@ -54,6 +54,15 @@ func workerMain() {
 		line, err := in.ReadString('\n')
 		if err != nil {
 			return
+		}
+		if strings.HasPrefix(line, "L") {
+			n, _ := strconv.Atoi(strings.TrimSpace(line[1:]))
+			r := limitProbe(n)
+			js, _ := json.Marshal(wReply{Out: r.out, Msg: r.msg, Alloc: r.alloc})
+			out.Write(js)
+			out.WriteByte('\n')
+			out.Flush()
+			continue
 		}
 		b, err := hex.DecodeString(strings.TrimSpace(line))
 		if err != nil {
@@ -139,7 +148,10 @@ type WObs struct {
 // when a reader reports zero bytes consumed)
 const workerTimeout = 10 * time.Second
 
-func (w *worker) decode(b []byte) WObs {
+func (w *worker) decode(b []byte) WObs { return w.request(hex.EncodeToString(b)) }
+
+// request sends one request line (hex input, or "L<n>" for the limit probe).
+func (w *worker) request(req string) WObs {
 	if w.cmd == nil {
 		w.start()
 	}
@@ -149,7 +161,7 @@ func (w *worker) decode(b []byte) WObs {
 	}
 	ch := make(chan ans, 1)
 	go func(stdin io.Writer, stdout *bufio.Reader) {
-		_, err := io.WriteString(stdin, hex.EncodeToString(b)+"\n")
+		_, err := io.WriteString(stdin, req+"\n")
 		var line string
 		if err == nil {
 			line, err = stdout.ReadString('\n')
@@ -260,4 +272,11 @@ func idOf(p OProto) uint64 {
 		return idGS
 	}
 	return p.Code
+}
+
+// limitOwnMemory bounds the address space of the calling process, so that a defect of
+// the code under test cannot exhaust the machine through the harness.
+func limitOwnMemory(bytes uint64) {
+	lim := syscall.Rlimit{Cur: bytes, Max: bytes}
+	_ = syscall.Setrlimit(syscall.RLIMIT_AS, &lim)
 }
